@@ -13,6 +13,17 @@ RULE = ("SafetyNet timestamp at every millisecond within +-3 ms of each window b
 T0, DAY = regsim.T0, regsim.DAY
 
 
+def srcdict_numbers(T0):
+    """numbers the changed source newly mentions, and the clock scaled by them: none of them is inside the window of a clock at T0"""
+    from harness import srcdict
+    out = []
+    for n in srcdict.big_numbers() + srcdict.thresholds():
+        for v in (n, n - 1, n + 1, T0 * 1000 * n, (T0 * 1000) // n if n else 0, T0 * n, T0 + n):
+            if abs(v - T0 * 1000) > 60000:
+                out.append(v)
+    return out[:60]
+
+
 def run(tier, seed):
     chk = fw.Check("C17", tier, seed)
     chk.strict_catalogue = True
@@ -83,7 +94,11 @@ def run(tier, seed):
     vst.time = impl._FakeTime(T0, 0.25)
     try:
         for ts, must in ((float("nan"), False), (float("inf"), False), (float("-inf"), False), (1e300, False), (-1e300, False), (T0 * 1000 + 0.5, True), (T0 * 1000 - 9999.5, True),
-                         (T0 * 1000 + 10000.5, False), (T0 * 1000 - 11000.5, False)):
+                         (T0 * 1000 + 10000.5, False), (T0 * 1000 - 11000.5, False),
+                         # the member is milliseconds since the epoch - the right instant written in any other unit is another instant
+                         (T0, False), (T0 - 2, False), (float(T0) - 1.5, False), (T0 * 10 ** 6, False), (T0 * 10 ** 9, False), (T0 // 60, False), (T0 * 1000 + 2 ** 32, False), (T0 * 1000 - 2 ** 32, False),
+                         (-(T0 * 1000), False), (T0 * 1000 + 2 ** 64, False), (0, False), (1, False), (-1, False), (10 ** 11 - 1, False), (10 ** 10, False)) + \
+                tuple((n, False) for n in srcdict_numbers(T0)):
             try:
                 f(ts)
                 ok = True
@@ -103,6 +118,12 @@ def run(tier, seed):
         pd, reg = regsim.build(s)
         exp = "accept" if -10000 <= off_ms <= 9000 else ("reject" if (off_ms <= -11000 or off_ms > 10000) else None)
         B.run_case(regrun.policy_of(pd), reg, "dict", exp, f"safetynet-ts{off_ms:+d}ms", scn=s)
+    from harness import authcat
+    while authcat.variants_left("timestamp-in-another-unit", scope="c17:"):
+        s = regsim.RScn("android-safetynet", "ES256-P256")
+        authcat.apply(regcat.FORMAT_FAULTS["android-safetynet"], "timestamp-in-another-unit", s, scope="c17:")
+        pd, reg = regsim.build(s)
+        B.run_case(regrun.policy_of(pd), reg, "dict", "reject", "timestamp-in-another-unit/android-safetynet", scn=s)
     # 2b. SafetyNet: the chain is judged at the VERIFIER's clock, not at the attestation's own timestamp (which may differ by up to 10 s);
     #     and the timestamp window applies whatever the other verdict members say
     for what, nb, na, now, ts_off, exp in (("leaf expired 4 s ago, timestamp 8 s ago", T0 - DAY, T0 + 100, T0 + 104, -8, "reject"),
@@ -153,6 +174,17 @@ def run(tier, seed):
             exp = "accept" if lo <= now < hi else "reject"
             B.run_case(regrun.policy_of(pd), reg, "dict", exp, f"{fmt}-clock", scn=s)
             chk.seen((fmt, now - T0))
+            if now in (lo - 1, lo, hi - 1, hi) or now - T0 in sparse:
+                # the same chain with unrecognised extensions on the leaf (PKI profile extensions, every OID the changed source newly mentions):
+                # nothing inside a certificate moves its window or the clock it is judged at
+                for n in range(regcat.decor_variants()):
+                    if quick and fmt not in ("packed", "apple") and n % 3 != (now - lo) % 3:
+                        continue
+                    s.k["_decor_n"] = n
+                    regcat._extension_decor(s, rng)
+                    pd, reg = regsim.build(s)
+                    B.run_case(regrun.policy_of(pd), reg, "dict", exp, f"{fmt}-clock:leaf-with-unrecognised-extensions", scn=s)
+                s.k.pop("leaf_extra_exts", None)
     chk.sample({"subject": "packed chain", "boundaries": "leaf/intermediate/root notBefore/notAfter +-3 s", "rule": "accepted iff notBefore <= now < notAfter for every certificate"})
     # 3b. the attestation certificate itself configured as an anchor (alone, or next to its issuer): its own validity still counts
     for fmt in ("packed", "tpm", "fido-u2f", "apple"):
